@@ -248,8 +248,10 @@ def execute_group(g):
     return {"recs": recs}
 
 
-def _run_groups(ctx, groups):
-    res = ctx.execute(execute_group, groups)
+def _run_groups(ctx, groups, per=24):
+    # split large groups (all in_range/in_ranges variants of one table) so the pool stays balanced
+    groups = [dict(g, variants=g["variants"][k:k + per]) for g in groups for k in range(0, len(g["variants"]), per)]
+    res = ctx.execute(execute_group, groups, chunksize=2)
     recs = [r for g in res for r in g["recs"]]
     ctx.records += len(recs) - len(res)
     return recs
@@ -332,8 +334,8 @@ SCOPES = {
     "quick": [
         dict(max_coord=4, max_a=2, max_b=2, nchrom=1, genes=["g"], idx="default", vset="full", naming=0,
              name="<=2 rows x <=2 queries over 0..4, 1 chromosome, all operation variants"),
-        dict(max_coord=3, max_a=2, max_b=2, nchrom=2, genes=["g"], idx="default", vset="core", naming=1,
-             name="<=2 x <=2 over 0..3, 2 chromosomes, core variants + in_range"),
+        dict(max_coord=3, max_a=2, max_b=2, nchrom=2, genes=["g"], idx="default", vset="pairs2", naming=1,
+             name="<=2 x <=2 over 0..3, 2 chromosomes, by_ranges (3 modes)/intersection/iter_ranges_of/into_ranges + in_range"),
         dict(max_coord=3, max_a=2, max_b=2, nchrom=1, genes=["g", "h"], idx="gapped", vset="labels", naming=2,
              name="<=2 x <=2 over 0..3, 1 chromosome, two gene values, filtered table (index labels 0,2)"),
     ],
